@@ -407,6 +407,204 @@ def gen_case(rng, maxlen):
     return dict(ops=ops)
 
 
+# ---------------------------------------------------------------------------------------
+# user holds / disables, second layer
+# ---------------------------------------------------------------------------------------
+
+
+def gen_inner(rng, focus=None):
+    """an operation that is modelled while something is held: request, inner mutator"""
+    r = rng.random()
+    if r < 0.38:
+        return gen_request(rng)
+    if r < 0.44:
+        return ["getall"]
+    kind = focus if (focus and rng.random() < 0.6) else rng.choice(["c", "c", "c", "k", "g", "groups"])
+    if kind == "c":
+        return gen_cmut(rng)
+    if kind == "k":
+        op = gen_kmut(rng)
+        while op[2] == "baseGlyph":
+            op = gen_kmut(rng)
+        return op
+    if kind == "g":
+        g = rng.choice(NAMES[:4])
+        rr = rng.random()
+        if rr < 0.25:
+            return ["g", g, "width", rng.choice([0, 100, 200])]
+        if rr < 0.35:
+            return ["g", g, "note", rng.choice([None, "n", "m"])]
+        if rr < 0.85:
+            return ["g", g, "move", 2 * rng.randint(-10, 10), 2 * rng.randint(-10, 10)]
+        return ["g", g, "dirty"]
+    return gen_groups(rng)
+
+
+def gen_hold_block(rng, what="hold"):
+    """hold (disable) one to three objects, edit and ask, release (enable) them in some order, read everything"""
+    un = {"hold": "release", "disable": "enable"}[what]
+    refs = []
+    for _ in range(rng.choice([1, 1, 1, 2, 2, 3])):
+        r = rng.random()
+        if r < 0.5:
+            refs.append(["c", ["a", rng.choice(NAMES[:4]), rng.randint(0, 2)]])
+        elif r < 0.8:
+            refs.append(["g", rng.choice(NAMES[:4])])
+        elif r < 0.93:
+            refs.append(["k", ["a", rng.choice(NAMES[:3]), rng.randint(0, 1)]])
+        else:
+            refs.append(["groups"])
+    ops = [[what, o] for o in refs]
+    if rng.random() < 0.25:
+        ops.append([what, refs[0]])            # counted: held twice
+        refs = refs + [refs[0]]
+    focus = rng.choice(["c", "c", "k", "g", None])
+    for _ in range(rng.randint(2, 7)):
+        ops.append(gen_inner(rng, focus))
+    order = list(refs)
+    rng.shuffle(order)
+    for i, o in enumerate(order):
+        ops.append([un, o])
+        if rng.random() < 0.4 and i + 1 < len(order):
+            ops.append(gen_inner(rng, focus))
+    ops.append(["getall"])
+    return ops
+
+
+def gen_hold_case(rng, maxlen, what="hold"):
+    ops = gen_setup(rng)
+    ops.append(["getall"])
+    for _ in range(rng.randint(1, 3)):
+        for _ in range(rng.randint(0, 3)):
+            ops.append(gen_inner(rng) if rng.random() < 0.7 else gen_struct(rng))
+        if rng.random() < 0.5:
+            ops.append(["getall"])
+        ops.extend(gen_hold_block(rng, what))
+    return dict(ops=ops)
+
+
+def gen_directed_holds(rng):
+    """the chain A -> B -> C -> D with every cache filled; ONE object held; one edit below / at / above it; reads inside
+    the hold; release; reads"""
+    cases = []
+    edits = [["c", ["a", "C", 0], "appendPoint", [30, 30, "line", False]],
+             ["c", ["a", "C", 0], "move", 10, 20],
+             ["c", ["a", "C", 0], "reverse"],
+             ["c", ["a", "C", 0], "removePoint", 1],
+             ["c", ["a", "C", 0], "dirty"],
+             ["c", ["a", "D", 0], "removeSegment", 1, False],
+             ["k", ["a", "B", 0], "transformation", [1, 0, 0, 1, 8, 8]],
+             ["k", ["a", "B", 0], "move", 4, 4],
+             ["g", "C", "move", 6, 6],
+             ["g", "C", "width", 333]]
+    helds = [["c", ["a", "C", 0]], ["g", "C"], ["k", ["a", "B", 0]], ["g", "B"], ["c", ["a", "D", 0]], ["g", "A"]]
+    for what in ("hold", "hold", "disable"):
+        un = {"hold": "release", "disable": "enable"}[what]
+        for h in helds:
+            for e in rng.sample(edits, 4):
+                ops = [["newGlyph", n] for n in NAMES[:4]]
+                for n in NAMES[:4]:
+                    ops.append(["pen", n, sh_square(2 * rng.randint(0, 10), 0, 20, 20)])
+                for i in range(3):
+                    ops.append(["instk", NAMES[i], NAMES[i + 1], gen_tr(rng)])
+                ops.append(["getall"])
+                ops.append([what, h])
+                ops.append(copy.deepcopy(e))
+                ops.append(["getall"])
+                if rng.random() < 0.5:
+                    ops.append(copy.deepcopy(rng.choice(edits)))
+                    ops.append(["getall"])
+                ops.append([un, h])
+                ops.append(["getall"])
+                cases.append(dict(ops=ops))
+    return cases
+
+
+def wrap2(op):
+    return ["L2", op]
+
+
+def gen_layer_case(rng, maxlen):
+    """two layers with overlapping glyph names: components of one layer whose base name exists in the other layer
+    only, the same name present in both, edits on either side, everything read on both sides"""
+    ops = []
+    n0 = rng.sample(NAMES[:5], rng.randint(2, 4))
+    n1 = rng.sample(NAMES[:5], rng.randint(2, 4))
+    for n in n0:
+        ops.append(["newGlyph", n])
+        if rng.random() < 0.8:
+            ops.append(["pen", n, gen_shape(rng, quad_ok=False)])
+    for n in n1:
+        ops.append(wrap2(["newGlyph", n]))
+        if rng.random() < 0.8:
+            ops.append(wrap2(["pen", n, gen_shape(rng, quad_ok=False)]))
+    # components: base names drawn from the names of EITHER layer
+    both = sorted(set(n0) | set(n1))
+    for n in n0:
+        for _ in range(rng.randint(0, 2)):
+            ops.append(["instk", n, rng.choice(both), gen_tr(rng)])
+    for n in n1:
+        for _ in range(rng.randint(0, 2)):
+            ops.append(wrap2(["instk", n, rng.choice(both), gen_tr(rng)]))
+    ops.append(["getall"])
+    ops.append(wrap2(["getall"]))
+    for _ in range(rng.randint(4, maxlen)):
+        r = rng.random()
+        if r < 0.3:
+            op = gen_request(rng)
+        elif r < 0.55:
+            op = gen_cmut(rng)
+        elif r < 0.65:
+            op = gen_kmut(rng)
+        elif r < 0.75:
+            op = gen_gmut(rng)
+        else:
+            op = gen_struct(rng)
+        if rng.random() < 0.5:
+            op = wrap2(op)
+        ops.append(op)
+        if rng.random() < 0.3:
+            ops.append(["getall"])
+            ops.append(wrap2(["getall"]))
+    ops.append(["getall"])
+    ops.append(wrap2(["getall"]))
+    return dict(ops=ops)
+
+
+def gen_directed_layers(rng):
+    """layer 1: A with a component on X, X missing.  layer 2: X exists.  Everything that happens to layer 2's X
+    (edit, rename away and back, delete, re-create) must leave layer 1's component alone - and the other way round."""
+    cases = []
+    events = [[["c", ["a", "X", 0], "appendPoint", [50, 50, "line", False]]],
+              [["c", ["a", "X", 0], "move", 10, 10]],
+              [["rename", "X", "Y"]],
+              [["rename", "X", "Y"], ["getall"], ["rename", "Y", "X"]],
+              [["delGlyph", "X"]],
+              [["delGlyph", "X"], ["getall"], ["newGlyph", "X"], ["pen", "X", sh_tri(0, 0, 30, 30)]],
+              [["pen", "X", sh_square(0, 0, 60, 60)]],
+              [["newGlyph", "Z"], ["instk", "Z", "X", [1, 0, 0, 1, 0, 0]]]]
+    for ev in events:
+        for flip in (False, True):
+            a = (lambda o: o) if not flip else wrap2
+            b = wrap2 if not flip else (lambda o: o)
+            ops = [a(["newGlyph", "A"]), a(["pen", "A", sh_square(0, 0, 20, 20)]),
+                   a(["instk", "A", "X", [1, 0, 0, 1, 10, 10]]),
+                   b(["newGlyph", "X"]), b(["pen", "X", sh_square(0, 0, 40, 40)]),
+                   b(["newGlyph", "B"]), b(["instk", "B", "X", [2, 0, 0, 2, 0, 0]]),
+                   a(["getall"]), b(["getall"])]
+            for e in ev:
+                ops.append(b(copy.deepcopy(e)))
+                ops.append(a(["getall"]))
+                ops.append(b(["getall"]))
+            # now the name appears in the first layer too
+            ops.append(a(["newGlyph", "X"]))
+            ops.append(a(["pen", "X", sh_tri(0, 0, 10, 10)]))
+            ops.append(a(["getall"]))
+            ops.append(b(["getall"]))
+            cases.append(dict(ops=ops))
+    return cases
+
+
 ORACLE_ONLY_OPS = ["correctDirection", "contourInside", "insertGlyph", "deserializeGlyph", "layerBounds",
                    "newGlyphOver", "insertGlyphOver", "renameOver", "newGlyphOver"]
 
@@ -506,6 +704,15 @@ def generate(rng, tier):
         yield c
     for c in directed[::2]:
         yield dict(ops=copy.deepcopy(c["ops"]), model=False, reader=True)
+    for c in gen_directed_holds(rng):
+        yield c
+    for c in gen_directed_layers(rng):
+        yield c
+    nh, nl = (60, 50) if tier == "quick" else (1500, 1200)
+    for i in range(nh):
+        yield gen_hold_case(rng, maxlen, "disable" if i % 6 == 5 else "hold")
+    for i in range(nl):
+        yield gen_layer_case(rng, maxlen)
     for i in range(n):
         if i % 10 == 9:
             yield gen_oracle_case(rng, maxlen // 2)
@@ -1062,7 +1269,7 @@ class Impl(object):
             return
         exempt = self.tainted() if self.uholds else ()
         for key, obj in self.tracked():
-            if obj.dispatcher is None or id(obj) in exempt:
+            if obj.dispatcher is None:
                 continue
             c = {"contour": "Contour", "comp": "Component", "glyph": "Glyph", "groups": "Groups"}[key[0]]
             for name, kw in obj.representationKeys():
@@ -1073,6 +1280,12 @@ class Impl(object):
                     want = self.fresh(obj, c, name, kw)
                 except Exception as e:        # the factory cannot run now: nothing to compare with
                     self.bump("oracle.fresh-raised." + type(e).__name__)
+                    continue
+                if id(obj) in exempt:
+                    # counted, not judged: how often a user hold really keeps a stale value around
+                    self.bump("hold.entries-above-a-held-object")
+                    if not same_value(canon_value(cached), canon_value(want)):
+                        self.bump("hold.stale-inside-user-hold")
                     continue
                 if not same_value(canon_value(cached), canon_value(want)):
                     self.viol.append(dict(clause="C03/stale", signature="C03/stale/%s/%s" % (name, site),
